@@ -867,7 +867,7 @@ def create_formula(rep, add_formula):
                 return rhs if lhs == 0 else add_formula(Next(rhs, lhs, rep.name == ">:"))
             lhs = None if len(args) == 1 else create_formula(args[0], add_formula)
             if rep.name == "<;" or rep.name == "<:;":
-                return add_formula(BooleanFormula("&", Previous(lhs, 1, rep.name == "<:;"), rhs))
+                return add_formula(BooleanFormula("&", add_formula(Previous(lhs, 1, rep.name == "<:;")), rhs))
             elif rep.name == "<*":
                 return add_formula(TelFormulaP("<*", lhs, rhs))
             elif rep.name == "<?":
@@ -875,7 +875,7 @@ def create_formula(rep, add_formula):
             elif rep.name == "<<":
                 return add_formula(Initially(rhs))
             elif rep.name == ";>" or rep.name == ";>:":
-                return add_formula(BooleanFormula("&", lhs, Next(rhs, 1, rep.name == ";>:")))
+                return add_formula(BooleanFormula("&", lhs, add_formula(Next(rhs, 1, rep.name == ";>:"))))
             elif rep.name == ">*":
                 formula = add_formula(TelFormulaN(">*", lhs, rhs))
                 formula.set_future(add_formula(Next(formula, 1, True)))
